@@ -4,7 +4,11 @@
   (`lean/Gotree/Gen/C04Facts.lean`, written by `harness/c04/extract.go`; decided in `Proofs/C04.lean`).
   Core Lean only.
 -/
+import Gotree.Model.C04
+import Gotree.Model.C04HM
+
 namespace Gotree.C04.Facts
+open Gotree.C04
 
 def all4 : List String := ["UpdateTipIndex", "ClearBitSets", "UpdateBitSet", "ComputeEdgeHashes"]
 def internal3 : List String := ["ClearBitSets", "UpdateBitSet", "ComputeEdgeHashes"]
@@ -40,8 +44,6 @@ def reachOK (tbl : List (String × List String)) : Bool :=
 /-- The one-line decisions of the source the model copies (skeleton = if-conditions, return expressions,
     assignments as printed by go/printer), next to the Lean definition that is their model. -/
 def assumedFacts : List (String × List String) := [
-  -- `indexFor`  (Model/C04HM.lean)
-  ("indexFor", ["ret hashcode & (capacity - 1)"]),
   -- `HM.new`: size 0 means one bucket
   ("NewHashMap", ["if size == 0", "set size = 1", "ret &HashMap{ mapArray: make([]Bucket, size), capacity: size, loadfactor: loadfactor, total: 0, }"]),
   -- `goPolicy` (`>=`, float64 product) and `HM.rehash` (`2 * m.cap`, re-insertion of every bucket of the old array)
@@ -50,16 +52,10 @@ def assumedFacts : List (String × List String) := [
   ("tax_hash", ["set h := fnv.New64a()", "call h.Write([]byte(s))", "ret h.Sum64()"]),
   -- `dumpBitSetL` (Model/C04Dump.lean): positions Len-1 .. 0, then a dot (since 405e36d)
   ("Edge.DumpBitSet", ["if e.bitset == nil", "ret \"nil\"", "var var s strings.Builder", "for i := e.bitset.Len(); i > 0; i--", "if e.bitset.Test(i - 1)", "call s.WriteByte('1')", "else", "call s.WriteByte('0')", "call s.WriteByte('.')", "ret s.String()"]),
-  -- `EdgeIdx.hashCode`
-  ("Edge.HashCode", ["var var hashcode uint64 = 0", "if e.ntaxleft == e.ntaxright", "set hashcode = e.hashcodeleft * e.hashcoderight", "else", "if e.ntaxleft < e.ntaxright", "set hashcode = e.hashcodeleft", "else", "set hashcode = e.hashcoderight", "ret hashcode"]),
   -- `EdgeIdx.equals`
   ("Edge.HashEquals", ["ret e.bitset.EqualOrComplement(h.(*Edge).bitset)"]),
   -- `EdgeIdx.sameBipartition`
   ("Edge.SameBipartition", ["if e.HashCode() != e2.HashCode()", "ret false", "ret e.bitset.EqualOrComplement(e2.bitset)"]),
-  -- `EdgeIdx.topoDepth`
-  ("Edge.TopoDepth", ["if e.ntaxleft == 0 || e.ntaxright == 0", "ret mutils.Min(e.ntaxleft, e.ntaxright), nil"]),
-  -- `eiKeep`
-  ("EdgeIndex.Edges", ["set keyvalues := em.hash.KeyValues()", "set bitsets := make([]*KeyValue, 0, len(keyvalues))", "range _, kv of keyvalues", "set e := kv.Key.(*Edge)", "set v := (kv.Value).(*EdgeIndexInfo)", "if (v.Count > minCount && v.Count <= maxCount) || v.Count == maxCount", "set bitsets = append(bitsets, &KeyValue{e, v})", "ret bitsets"]),
   -- `Quartet.hashCode` (Model/C04Q.lean): the five compare-and-swap steps, then the polynomial in 31
   ("Quartet.HashCode", ["set i1, i2, i3, i4 := int(q.T1), int(q.T2), int(q.T3), int(q.T4)", "if i2 < i1", "set i1, i2 = i2, i1", "if i4 < i3", "set i3, i4 = i4, i3", "if i3 < i1", "set i1, i3 = i3, i1", "if i4 < i2", "set i2, i4 = i4, i2", "if i3 < i2", "set i3, i2 = i2, i3", "var var hashCode uint64 = 1", "set hashCode = 31*(31*(31*(31+uint64(i1))+uint64(i2))+uint64(i3)) + uint64(i4)", "ret hashCode"]),
   -- `Quartet.hashEquals`
@@ -69,10 +65,100 @@ def assumedFacts : List (String × List String) := [
   -- `sortNames`: bytewise order of the names
   ("Tree.SortedTips", ["set tips := t.Tips()", "call sort.Slice(tips, func(i, j int) bool { return strings.Compare(tips[i].Name(), tips[j].Name()) < 0 })", "ret strings.Compare(tips[i].Name(), tips[j].Name()) < 0", "ret tips"]),
   -- `reinitInternalLit`: width of the bitsets = size of the tip index, empty index = error
-  ("Tree.ClearBitSets", ["set length := uint(len(t.tipIndex))", "if length == 0", "call t.clearBitSetsRecur(nil, nil, length)", "ret nil"])]
+  ("Tree.ClearBitSets", ["set length := uint(len(t.tipIndex))", "if length == 0", "call t.clearBitSetsRecur(nil, nil, length)", "ret nil"]),
+  -- `statsSplits` (Model/C04Dump.lean): ReinitIndexes (its error is the command's), header from the last sorted tip to the first, one line per branch of Edges()
+  ("cmd.splitsCmd.RunE", ["var var f *os.File", "var var treefile goio.Closer", "var var treechan <-chan tree.Trees", "if f, err = openWriteFile(outtreefile); err != nil", "call io.LogError(err)", "ret ", "if treefile, treechan, err = readTrees(intreefile); err != nil", "call io.LogError(err)", "ret ", "range t of treechan", "if t.Err != nil", "call io.LogError(t.Err)", "ret t.Err", "if err = t.Tree.ReinitIndexes(); err != nil", "call io.LogError(err)", "ret ", "call f.WriteString(\"Tree\\t\")", "set tips := t.Tree.SortedTips()", "for i := len(tips) - 1; i >= 0; i--", "if i < len(tips)-1", "call f.WriteString(\"|\")", "call f.WriteString(tips[i].Name())", "call f.WriteString(\"\\n\")", "range _, e of t.Tree.Edges()", "call f.WriteString(fmt.Sprintf(\"%d\\t\", t.Id))", "call f.WriteString(e.DumpBitSet() + \"\\n\")", "ret "])]
 
 /-- the keys whose regenerated skeleton differs from the assumed one (or is missing) -/
 def factsDiff (tbl : List (String × List String)) : List String :=
   assumedFacts.filterMap fun r => if lookup tbl r.1 == some r.2 then none else some r.1
+
+/-! ### semantic rows: Go expressions evaluated on probes -/
+
+/-- a Go expression as the extractor hands it over (selectors reduced to their field name) -/
+inductive GExpr where
+  | var (n : String)
+  | lit (v : Int)
+  | bin (op : String) (a b : GExpr)
+  | un (op : String) (a : GExpr)
+  | call1 (f : String) (a : GExpr)
+  | call2 (f : String) (a b : GExpr)
+  | other (s : String)
+  deriving Repr
+
+def b2i (b : Bool) : Int := if b then 1 else 0
+
+/-- value of an expression over integers (`true` = 1); `u64`: `+ - *` wrap around 2^64 as on `uint64`.
+    `none`: something the evaluator does not know (the row then fails). -/
+def GExpr.eval (u64 : Bool) (env : String → Option Int) : GExpr → Option Int
+  | .var n => env n
+  | .lit v => some v
+  | .other _ => none
+  | .un op a =>
+    match a.eval u64 env with
+    | none => none
+    | some x => if op == "!" then some (b2i (x == 0)) else if op == "-" then some (-x) else none
+  | .call1 f a =>      -- conversions
+    if f == "uint64" || f == "int" || f == "uint" || f == "float64" then a.eval u64 env else none
+  | .call2 f a b =>
+    match a.eval u64 env, b.eval u64 env with
+    | some x, some y => if f == "Min" then some (min x y) else if f == "Max" then some (max x y) else none
+    | _, _ => none
+  | .bin op a b =>
+    match a.eval u64 env, b.eval u64 env with
+    | some x, some y =>
+      let w (z : Int) : Int := if u64 then z % 18446744073709551616 else z
+      if op == "+" then some (w (x + y)) else if op == "-" then some (w (x - y)) else if op == "*" then some (w (x * y))
+      else if op == "&" then some ((x.toNat &&& y.toNat : Nat) : Int)
+      else if op == "==" then some (b2i (x == y)) else if op == "!=" then some (b2i (x != y))
+      else if op == "<" then some (b2i (x < y)) else if op == "<=" then some (b2i (x ≤ y))
+      else if op == ">" then some (b2i (x > y)) else if op == ">=" then some (b2i (x ≥ y))
+      else if op == "&&" then some (b2i (x != 0 && y != 0)) else if op == "||" then some (b2i (x != 0 || y != 0))
+      else none
+    | _, _ => none
+
+def envOf (l : List (String × Int)) (n : String) : Option Int := (l.find? fun p => p.1 == n).map (·.2)
+
+def semLookup (tbl : List (String × GExpr)) (k : String) : GExpr := ((tbl.find? fun r => r.1 == k).map (·.2)).getD (.other "missing")
+
+/-- value of a decision list (first condition that holds) -/
+def chainEval (u64 : Bool) (env : String → Option Int) : List (GExpr × GExpr) → Option Int
+  | [] => none
+  | (c, v) :: r =>
+    match c.eval u64 env with
+    | some 0 => chainEval u64 env r
+    | some _ => v.eval u64 env
+    | none => none
+
+def pairs3 (a b c : List Int) : List (Int × Int × Int) := a.flatMap fun x => b.flatMap fun y => c.map fun z => (x, y, z)
+
+/-- `indexFor` of the source = `indexFor` of the model, on every probe (capacities >= 1) -/
+def indexForOK (e : GExpr) : Bool :=
+  ([0, 1, 5, 6, 255, 12345678901234567890, 18446744073709551615] : List Nat).all fun h =>
+    ([1, 2, 3, 5, 7, 8, 10, 128, 1000] : List Nat).all fun cap =>
+      e.eval true (envOf [("hashcode", h), ("capacity", cap)]) == some ((indexFor (UInt64.ofNat h) cap : Nat) : Int)
+
+/-- the guard and the value of `Edge.TopoDepth` = `EdgeIdx.topoDepth` -/
+def topoDepthOK (guard ret : GExpr) : Bool :=
+  ([0, 1, 2, 3, 7] : List Nat).all fun nl => ([0, 1, 2, 3, 7] : List Nat).all fun nr =>
+    let env := envOf [("ntaxleft", nl), ("ntaxright", nr)]
+    let m := (EdgeIdx.topoDepth ⟨[], nl, nr, 0, 0⟩).map fun (x : Nat) => (x : Int)
+    match guard.eval false env with
+    | some 0 => ret.eval false env == m && m.isSome
+    | some _ => m.isNone
+    | none => false
+
+/-- the filter of `EdgeIndex.Edges` = `eiKeep` -/
+def edgesKeepOK (e : GExpr) : Bool :=
+  (pairs3 [0, 1, 2, 3, 5] [-1, 0, 1, 2, 3, 5] [0, 1, 2, 3, 5]).all fun (c, mn, mx) =>
+    e.eval false (envOf [("Count", c), ("minCount", mn), ("maxCount", mx)]) == some (b2i (eiKeep mn mx ⟨c, 0⟩))
+
+/-- the decision list of `Edge.HashCode` = `EdgeIdx.hashCode` (uint64 products included) -/
+def hashCodeOK (chain : List (GExpr × GExpr)) : Bool :=
+  ([1, 2, 3] : List Nat).all fun nl => ([1, 2, 3] : List Nat).all fun nr =>
+    ([3, 9223372036854775813, 18446744073709551615] : List Nat).all fun hl =>
+      ([7, 9223372036854775809, 18446744073709551557] : List Nat).all fun hr =>
+        chainEval true (envOf [("ntaxleft", nl), ("ntaxright", nr), ("hashcodeleft", hl), ("hashcoderight", hr)]) chain ==
+          some (((EdgeIdx.hashCode ⟨[], nl, nr, UInt64.ofNat hl, UInt64.ofNat hr⟩).toNat : Nat) : Int)
 
 end Gotree.C04.Facts
